@@ -197,7 +197,7 @@ theorem e_syDecide {s s' : State} {a : Nat} {o : Obs} (h : ErasedInv s) (act : A
   next v hv =>
   repeat' split at hs
   all_goals (simp only [Option.some.injEq, Prod.mk.injEq] at hs; obtain ⟨rfl, _⟩ := hs)
-  · exact ErasedInv.append_plain (nj := ⟨q, .immediate a b, .held a, true, false, none⟩) h (fun _ => rfl) rfl rfl (fun _ => rfl) rfl
+  · exact ErasedInv.append_plain (nj := ⟨q, .immediate a b, .held a, true, false, none, false⟩) h (fun _ => rfl) rfl rfl (fun _ => rfl) rfl
       (by rw [hpca, hpc]; rfl) (Or.inr rfl)
   all_goals (exact ErasedInv.frame h (fun _ => rfl) (fun _ => rfl) (fun _ hd => hd) (fun _ => rfl) rfl (by rw [hpca, hpc]; rfl) (by first | exact Or.inl (by rw [hpca, hpc]; rfl) | exact Or.inr rfl))
 
@@ -211,7 +211,7 @@ theorem e_tsDecide {s s' : State} {a : Nat} {o : Obs} (h : ErasedInv s) (act : A
   next v hv =>
   repeat' split at hs
   all_goals (simp only [Option.some.injEq, Prod.mk.injEq] at hs; obtain ⟨rfl, _⟩ := hs)
-  · exact ErasedInv.append_plain (nj := ⟨q, .immediate a b, .held a, true, false, none⟩) h (fun _ => rfl) rfl rfl (fun _ => rfl) rfl
+  · exact ErasedInv.append_plain (nj := ⟨q, .immediate a b, .held a, true, false, none, false⟩) h (fun _ => rfl) rfl rfl (fun _ => rfl) rfl
       (by rw [hpca, hpc]; rfl) (Or.inr rfl)
   · exact ErasedInv.frame_setAct h (fun _ => rfl) (fun _ => rfl) (fun _ hd => hd) (fun _ => rfl) rfl (by rw [hpca, hpc]; rfl) (Or.inr rfl)
   · exact ErasedInv.frame h (fun _ => rfl) (fun _ => rfl) (fun _ hd => hd) (fun _ => rfl) rfl (by rw [hpca, hpc]; rfl) (Or.inr rfl)
@@ -222,7 +222,7 @@ theorem e_dsPush {s s' : State} {a : Nat} {o : Obs} (hw : WfInv s) (h : ErasedIn
   have hk := hw a
   rw [hpca, hpc] at hk
   simp only [Pc.callerOk, Bool.not_eq_eq_eq_not, Bool.not_true] at hk
-  have hne : kOf ⟨q, kind, .queued, false, false, none⟩ = none := by
+  have hne : kOf ⟨q, kind, .queued, false, false, none, false⟩ = none := by
     cases kind <;> simp_all [kOf, JobKind.isErased]
   unfold stepAct at hs
   simp only [ha, hc, hpc, Option.isSome_none, Bool.false_eq_true, ↓reduceIte] at hs
@@ -231,7 +231,7 @@ theorem e_dsPush {s s' : State} {a : Nat} {o : Obs} (hw : WfInv s) (h : ErasedIn
   next v hv =>
   repeat' split at hs
   all_goals (simp only [Option.some.injEq, Prod.mk.injEq] at hs; obtain ⟨rfl, _⟩ := hs)
-  all_goals (exact ErasedInv.append_plain (nj := ⟨q, kind, .queued, false, false, none⟩) h (fun _ => rfl) rfl hne (fun _ => rfl) rfl (by rw [hpca, hpc]; rfl) (Or.inr rfl))
+  all_goals (exact ErasedInv.append_plain (nj := ⟨q, kind, .queued, false, false, none, false⟩) h (fun _ => rfl) rfl hne (fun _ => rfl) rfl (by rw [hpca, hpc]; rfl) (Or.inr rfl))
 
 theorem e_sdPush {s s' : State} {a : Nat} {o : Obs} (h : ErasedInv s) (act : Act) (ha : s.acts[a]? = some act) (hc : act.child = none)
     (q : Nat) (b : Body) (hpc : act.pc = .sdPush q b) (hs : stepAct s a = some (s', o)) : ErasedInv s' := by
@@ -242,9 +242,9 @@ theorem e_sdPush {s s' : State} {a : Nat} {o : Obs} (h : ErasedInv s) (act : Act
   simp only [Option.some.injEq, Prod.mk.injEq] at hs; obtain ⟨rfl, _⟩ := hs
   refine ErasedInv.push (bg := false) h hlt (by unfold State.pushBack; split <;> rfl) (fun c => by rw [pcAt_pushBack]; rfl) (by rw [hpca, hpc]; rfl) ?_ ?_ (fun c => by rw [isReady_pushBack]; rfl) (by simp [Pc.awaited]) rfl
   · intro i
-    rw [jobK_pushBack, jobK_of_append (s := s) (nj := ⟨q, .erasedDrain a b, .queued, false, false, none⟩) rfl]; rfl
+    rw [jobK_pushBack, jobK_of_append (s := s) (nj := ⟨q, .erasedDrain a b, .queued, false, false, none, false⟩) rfl]; rfl
   · intro i
-    rw [jobD_pushBack, jobD_of_append (s := s) (nj := ⟨q, .erasedDrain a b, .queued, false, false, none⟩) rfl]; rfl
+    rw [jobD_pushBack, jobD_of_append (s := s) (nj := ⟨q, .erasedDrain a b, .queued, false, false, none, false⟩) rfl]; rfl
 
 theorem e_sbPush {s s' : State} {a : Nat} {o : Obs} (h : ErasedInv s) (act : Act) (ha : s.acts[a]? = some act) (hc : act.child = none)
     (q : Nat) (b : Body) (hpc : act.pc = .sbPush q b) (hs : stepAct s a = some (s', o)) : ErasedInv s' := by
@@ -259,8 +259,8 @@ theorem e_sbPush {s s' : State} {a : Nat} {o : Obs} (h : ErasedInv s) (act : Act
   all_goals (simp only [Option.some.injEq, Prod.mk.injEq] at hs; obtain ⟨rfl, _⟩ := hs)
   all_goals (refine ErasedInv.push (bg := true) h hlt rfl (fun c => rfl) (by rw [hpca, hpc]; rfl) ?_ ?_ (fun c => rfl) (by simp [Pc.awaited]) rfl)
   all_goals (intro i; first
-    | (rw [jobK_setQ, jobK_of_append (s := s) (nj := ⟨q, .erasedBg a b, .queued, false, false, none⟩) rfl]; rfl)
-    | (rw [jobD_setQ, jobD_of_append (s := s) (nj := ⟨q, .erasedBg a b, .queued, false, false, none⟩) rfl]; rfl))
+    | (rw [jobK_setQ, jobK_of_append (s := s) (nj := ⟨q, .erasedBg a b, .queued, false, false, none, false⟩) rfl]; rfl)
+    | (rw [jobD_setQ, jobD_of_append (s := s) (nj := ⟨q, .erasedBg a b, .queued, false, false, none, false⟩) rfl]; rfl))
 
 theorem ErasedInv.spawn_goto {s X : State} {a : Nat} {n : Act} {pc' : Pc} (h : ErasedInv s) (hA : X.acts = s.acts ++ [n]) (hJ : X.jobs = s.jobs) (hR : X.ready = s.ready)
     (hlt : a < s.acts.length) (hAw : pc'.awaited = (s.pcAt a).awaited) (hF : pc'.fresh = (s.pcAt a).fresh ∨ pc'.fresh = false) : ErasedInv (X.goto a pc') := by
